@@ -72,6 +72,22 @@ CHECKS.update({
              "execution on real schemas outside", "DESIGN.md §5 C16"),
     "C22": B("exceptional postcondition of compile(): raises subset-of {CompileError, UnsupportedCompilationError, InvalidRequestError, ArgumentError}, over the statement corpus (depth 2) + ~3.3k compositions x 9 dialect variants x {plain, literal_binds, render_postcompile}. Bounded exploration of a finite catalogue.",
              "'well-formed' = accepted by the constructors in the corpus generator", "DESIGN.md §5 C22"),
+    "C10": B("list-model ghost for Result/ScalarResult/MappingResult/FrozenResult/MergedResult/ChunkedIteratorResult: every public method's result compared with the model over all operation sequences <= 3 (quick) / 4 (thorough) of 32 operations x 7 row sets x 6 sources (IteratorResult, sqlite CursorResult default / stream_results+max_row_buffer / yield_per, chunked). Bounded exploration; the buffered fetch strategies' proof kernel is planned (DESIGN §5 C10).",
+             "assumed DBAPI cursor contract; cursor.fetchmany(0) is driver-defined and excluded", "DESIGN.md §5 C10"),
+    "C21": B("run-time contract on _truncated_identifier / _truncate_and_render_maxlen_name / truncate_and_render_index+constraint_name: rendered length <= the dialect's limit for that kind of name, deterministic across compilations, unique within a statement; 7 dialect families x max_identifier_length values x 11 naming templates x name lengths around each limit. Bounded exploration.",
+             "md5 and %-templating are CPython's", "DESIGN.md §5 C21"),
+    "C24": B("postcondition of Pool.connect() on a fake DBAPI with a ghost ledger: a handed-out connection has no open transaction and default isolation/autocommit unless reset_on_return=None; all histories <= 4 (quick) / 5 (thorough) x 4 pool classes x 3 reset_on_return settings. Bounded exploration.",
+             "server-side session state on real backends and GC timing are outside", "DESIGN.md §5 C24", level="fault_enumeration"),
+    "C26": B("fault enumeration on a fake DBAPI: every pool history <= 5 (quick) / 6 (thorough) x a fault at every DBAPI call position (two faults for short histories) x 11 pool configurations; after all holders released: checkedout()==0, every ledger-open connection idle in the pool, nothing closed handed out, nothing predating an invalidation.",
+             "weakref/GC timing; StaticPool/SingletonThreadPool with one holder only", "DESIGN.md §5 C26", level="fault_enumeration"),
+    "C28": B("ghost registry of listen/remove (insert/propagate/once/named) on a 3-class hierarchy with a late subclass and 2 instances; invocation sequence on dispatch == registry model, each once; all histories <= 3 (quick) / 4 (thorough) over 75 operations. Bounded exploration.",
+             "concurrent exec-once and weakref clean-up of the registry not decided", "DESIGN.md §5 C28"),
+    "C36": B("History contract (documented conventions) evaluated after every mutation sequence <= 3 (quick) / 4 (thorough) on scalar / many-to-one / list / set / dict attributes x persistent / expired / transient, then flush. Bounded exploration.",
+             "the database round trip uses SQLite", "DESIGN.md §5 C36"),
+    "C38": B("InstrumentedList/Set and KeyFuncDict vs the builtin executed side by side (contents, return value, exception type, exactly the right append/remove events): every index and slice (bounds -5..5, steps -3..3), every method and operator x operand catalogue. Bounded exploration; proof kernel for the list index/slice arithmetic planned.",
+             "events compared as multisets; user __eq__ not modelled", "DESIGN.md §5 C38"),
+    "C50": B("OrderingList representation invariant position(self[i]) == ordering_func(i) after every operation sequence <= 3 (quick) / 4 (thorough) over 21 operations (bound and un-instrumented class), association proxies vs list/set/dict models, flush + reload. Bounded exploration.",
+             "SQLite for the persisted order", "DESIGN.md §5 C50"),
     "C20": B("inverse-pair contract make_url(u.render_as_string(hide_password=False)) == u on the real URL functions over ~3e5 URLs (all strings <= 3 of an adversarial alphabet per component, interacting pairs, hosts/ports table). Bounded exploration.",
              "urllib.parse quote/unquote and re are CPython's; canonical query forms only", "DESIGN.md §5 C20"),
     "C23": B("ghost nested-transaction model evaluated after every step of every operation sequence <= 5 (quick) / 6 (thorough) over 20 Connection/Transaction operations on file-backed SQLite with an independent observer connection. Bounded exploration.",
